@@ -369,14 +369,43 @@ def main(argv=None):
             harness_errors.append("run crashed:\n" + traceback.format_exc())
     else:
         import multiprocessing as mp
+        from concurrent.futures import ProcessPoolExecutor, as_completed
+        from concurrent.futures.process import BrokenProcessPool
         mpctx = mp.get_context("spawn")
         jobs = [(modname, prop, tier, seed, i, nshards, nthreads) for i in range(nshards)]
-        with mpctx.Pool(min(nshards, ncpu), maxtasksperchild=1) as pool:
-            for status, res in pool.imap_unordered(_shard_entry, jobs):
+        shard_timeout = float(os.environ.get("VF_SHARD_TIMEOUT", "7200" if tier == "quick" else "43200"))
+        done_shards = set()
+        ex = ProcessPoolExecutor(max_workers=min(nshards, ncpu), mp_context=mpctx)
+        futs = {ex.submit(_shard_entry, j): j[4] for j in jobs}
+        try:
+            for fut in as_completed(futs, timeout=shard_timeout):
+                sh = futs[fut]
+                try:
+                    status, res = fut.result()
+                except BrokenProcessPool:
+                    continue
+                done_shards.add(sh)
                 if status == "ok":
                     total.merge(res)
                 else:
                     harness_errors.append(res)
+        except TimeoutError:
+            harness_errors.append("shards %s did not finish within %.0f s (inconclusive, not a violation)" % (sorted(set(range(nshards)) - done_shards), shard_timeout))
+        finally:
+            for pr in list((getattr(ex, "_processes", None) or {}).values()):
+                try:
+                    pr.kill()
+                except Exception:
+                    pass
+            ex.shutdown(wait=False, cancel_futures=True)
+        dead = sorted(set(range(nshards)) - done_shards)
+        if dead and not any("did not finish" in h for h in harness_errors):
+            # a worker process died (segfault / abort inside compiled library code on a generated, valid input):
+            # the code under test crashed instead of returning or raising -- reported as a violation ("handled or
+            # rejected cleanly, never crashes or corrupts"); the shard seeds are the replay information.
+            total.evaluations += 1
+            total.fail("worker-process-died", {"shards_not_finished": dead, "seed": seed, "tier": tier, "nshards": nshards},
+                       "a shard process died while evaluating generated inputs (crash inside the library); shards not finished: %s (the pool is torn down when one worker dies)" % dead)
 
     wall = time.time() - t0
     # 3. verdicts
